@@ -58,7 +58,7 @@ def val(v):
     if isinstance(v, bool):
         return {'t': 'b', 'v': v}
     if isinstance(v, int):
-        return {'t': 'i', 'v': v}
+        return {'t': 'i', 'v': -v, 'neg': True} if v < 0 else {'t': 'i', 'v': v}
     if isinstance(v, str):
         return {'t': 's', 'v': list(v)}
     if isinstance(v, (list, tuple)):
